@@ -385,6 +385,23 @@ func genBlocked(g *prng.R) c06Case {
 		at := g.Intn(len(actors) + 1)
 		actors = append(actors[:at:at], append(A{M{"type": "Person", "name": "anonymous"}}, actors[at:]...)...)
 	}
+	if g.Chance(1, 10) {
+		// an actor the block check cannot be asked about in another way: a
+		// value of a type the vocabularies do not define (it has an id, a
+		// blocked one), or a null - both are carried as "neither IRI nor
+		// value", and the request has to fail like for the anonymous one
+		at := g.Intn(len(actors) + 1)
+		var odd interface{} = M{"type": "Robot", "id": R2 + "/users/blocked-robot"}
+		if g.Chance(1, 3) {
+			odd = nil
+		}
+		actors = append(actors[:at:at], append(A{odd}, actors[at:]...)...)
+		noID = true
+	}
+	if g.Chance(1, 25) {
+		actors = A{nil} // nothing but a null
+		noID = true
+	}
 	var av interface{} = actors
 	if len(actors) == 1 && g.Bool() {
 		av = actors[0]
